@@ -696,9 +696,16 @@ class Consumer : public ASTConsumer {
                            ",\"line\":" + std::to_string(P.isValid() ? P.getLine() : 0) + ",\"static\":" + (VD->getStorageClass() == SC_Static ? "true" : "false") +
                            ",\"const\":" + (VD->getType().isConstQualified() ? "true" : "false");
                 if (VD->getInit() && !VD->getInit()->isValueDependent()) {
-                    const APValue *V = VD->evaluateValue();
-                    if (V && !V->isAbsent() && !V->isIndeterminate()) globals += ",\"init\":" + Em.apvalue(*V, VD->getType());
-                    else globals += ",\"init\":null";
+                    APValue Val;
+                    llvm::SmallVector<PartialDiagnosticAt, 8> Notes;
+                    bool ok = VD->getInit()->EvaluateAsInitializer(Val, Ctx, VD, Notes, true);
+                    if (ok && !Val.isAbsent() && !Val.isIndeterminate()) globals += ",\"init\":" + Em.apvalue(Val, VD->getType());
+                    else {
+                        Em.ids.clear();
+                        Em.elems.clear();
+                        Em.fnFile = SM.getFileID(SM.getExpansionLoc(VD->getLocation()));
+                        globals += ",\"init\":null,\"init_expr\":" + Em.tree(VD->getInit(), nullptr);
+                    }
                 } else
                     globals += ",\"init\":null";
                 globals += "}";
